@@ -558,7 +558,10 @@ func drive(o hx.RunOpts) error {
 		"(d) HISTORIES in one process: 1..4 stores on one folder, ONE shared L2 cache, a real fs.StoreRepository (often a fresh object per commit); events = Update on one or more stores (deltas -6..14, NeedsMetaDataSave sometimes) of which about a third of the multi-store ones have one store's storeinfo.txt really broken during the call "+
 		"(a directory in its place, or the immutable flag where supported), so the Update fails at the 1st/2nd/3rd/4th store in name order and its undo reverts the earlier ones; cache-first Gets; evictions of the cache entry between calls / right before the forward pass / right before the undo pass reads it; cold reopen midway and at the end. "+
 		"Diffed with the model (Sop.Model.StoreInfoHistory over the Update model Sop.Model.StoreInfoCache) after every Update: result, every store's file AND cache entry (count, timestamp, configuration id); every Get; every cold read. "+
-		"Direct oracle: what a cold process reads = initial count + deltas of the Updates that returned nil, timestamp of the last of them, own configuration; a failed Update leaves every file unchanged; a cache-first Get reports the committed count. Non-trivial (d) = the history has a failed Update and a successful one. A directed corpus of 8 histories runs first.")
+		"Direct oracle: what a cold process reads = initial count + deltas of the Updates that returned nil, timestamp of the last of them, own configuration; a failed Update leaves every file unchanged; a cache-first Get reports the committed count. Non-trivial (d) = the history has a failed Update and a successful one. A directed corpus of 8 histories runs first. "+
+		"(e) CONFIGURATION ACROSS PROCESSES: 2..4 stores whose seven omitempty fields (cel_expression, relations, schema, key_fields, value_fields, custom_data, version) are each set on some stores and absent on others (values tagged with the owner), created by one process; "+
+		"then process restarts (fresh L2 cache and repository objects), multi-name Get / GetWithTTL over random subsets in random order (directed: one fully configured store + bare ones, EVERY order of 2 and 3 names, then the first commit of each store), commits by a caller that opened the store with a cache-first single-name Get (patch or full save), evictions, final cold reopen. "+
+		"Diffed with Sop.Model.StoreInfoGet: every record every Get returns field by field (whose mandatory part, whose value in each optional field), the file after every commit, all files at the end; the in-memory cache's own evictions are fed to the model (gsync). Direct oracle: every returned record and every file carry the configuration the store was created with (signature C13/config-inherited-from-other-store when an optional field carries another store's value).")
 	p := hx.NewPrng(o.Seed)
 	ctx := context.Background()
 
@@ -636,6 +639,10 @@ func drive(o hx.RunOpts) error {
 	}
 	// (d) histories of commits in one process (shared L2 cache): multi-store Updates failing midway and undone, then more commits, cold reopen
 	if err := histCases(ctx, s, p, o); err != nil {
+		return err
+	}
+	// (e) configuration across processes: stores with different optional configuration, multi-name Gets in every order, commits, reopen
+	if err := cfgCases(ctx, s, p, o); err != nil {
 		return err
 	}
 	s.Rep.CoverageGap = append(s.Rep.CoverageGap, "strings with invalid UTF-8 (the encoder replaces bad bytes by U+FFFD at Add time; not a commit effect) are not generated",
